@@ -219,6 +219,13 @@ Inductive metric : Type :=
 | MPop (counts : list (Z * nat)).
 
 Definition tbl_disc (tbl : list Q) : nat -> Q := fun r => nth (r - 1) tbl 1.
+(* a tabulated discount continued by its last value *)
+Definition tbl_disc_ext (tbl : list Q) : nat -> Q := fun r => nth (r - 1) tbl (last tbl 1).
+Fixpoint adj_le (tbl : list Q) : bool :=
+  match tbl with
+  | a :: ((b :: _) as t') => Qle_bool (Qmaxq a 1) (Qmaxq b 1) && adj_le t'
+  | _ => true
+  end.
 
 Definition measure (m : metric) (disc : nat -> Q) (k : option nat) (recs : ilist) (t : tlist) : exc res :=
   match m with
